@@ -1,27 +1,4 @@
 package main
 
-import (
-	"context"
-	"fmt"
-
-	"github.com/sdcio/data-server/pkg/utils"
-	sdcpb "github.com/sdcio/sdc-protos/sdcpb"
-	schemaClient "github.com/sdcio/data-server/pkg/datastore/clients/schema"
-	"verif/harness/h"
-)
-
-func main() {
-	h.Quiet()
-	u, err := h.LoadUniverse()
-	if err != nil {
-		panic(err)
-	}
-	scb := schemaClient.NewSchemaClientBound(u.SchemaCfg.GetSchema(), u.Client)
-	conv := utils.NewConverter(scb)
-	n := &sdcpb.Notification{Update: []*sdcpb.Update{{Path: h.P("if", h.K{"name", "e1"}).Sdcpb(), Value: &sdcpb.TypedValue{Value: &sdcpb.TypedValue_JsonVal{JsonVal: []byte(`{"name":"e1","descr":"j","enabled":false}`)}}}}}
-	nn, err := conv.ConvertNotificationTypedValues(context.Background(), n)
-	fmt.Println(nn, err)
-	n = &sdcpb.Notification{Update: []*sdcpb.Update{{Path: h.P("if", h.K{"name", "e1"}).Sdcpb(), Value: &sdcpb.TypedValue{Value: &sdcpb.TypedValue_JsonVal{JsonVal: []byte(`{"descr":"j"}`)}}}}}
-	nn, err = conv.ConvertNotificationTypedValues(context.Background(), n)
-	fmt.Println(nn, err)
-}
+// ad-hoc experiments go here
+func main() {}
